@@ -6,6 +6,7 @@ import (
 	"encoding/json"
 	"fmt"
 	"math/big"
+	"os"
 	"strings"
 	"sync"
 	"testing"
@@ -166,8 +167,8 @@ func encVarBytes(b []byte) []byte {
 
 type message struct {
 	TxHash, CrossChainID, FromContract, ToContract, Args []byte
-	Method                                                 string
-	ToChain                                                uint64
+	Method                                               string
+	ToChain                                              uint64
 }
 
 // encode: var-bytes txHash, crossChainID, fromContract; u64 toChain; var-bytes toContract, method, args
@@ -249,6 +250,9 @@ func genC23(t *rapid.T) c23Case {
 		NSlot:  rapid.IntRange(1, ev.Scale(16, 50)).Draw(t, "nslot"),
 		NMsg:   rapid.IntRange(1, 8).Draw(t, "nmsg"),
 		ArgLen: rapid.SampledFrom([]int{0, 1, 32, 200}).Draw(t, "arglen"),
+	}
+	if r := os.Getenv("PEVM_ROUTER"); r != "" {
+		c.Router = r // development aid only: pin the router (never set by the driver)
 	}
 	// mostly long enough for the confirmation boundary to lie on the tracked chain
 	if rapid.IntRange(0, 4).Draw(t, "shortchain") == 0 {
